@@ -209,6 +209,14 @@ func (st *StateTransition) buyGas() error {
 	return nil
 }
 
+// returnBoughtGas undoes buyGas for a transaction that is rejected before it executes: the
+// block builder skips such a transaction, so the gas must go back to the block gas pool
+// (and the price to the sender) as if it had not been in the block.
+func (st *StateTransition) returnBoughtGas() {
+	st.gp.AddGas(st.initialGas)
+	st.state.AddBalance(st.msg.From(), new(big.Int).Mul(new(big.Int).SetUint64(st.initialGas), st.gasPrice))
+}
+
 func (st *StateTransition) preCheck() error {
 	// Make sure this transaction's nonce is correct.
 	if st.msg.CheckNonce() {
@@ -255,12 +263,14 @@ func (st *StateTransition) TransitionDb() (*kvm.ExecutionResult, error) {
 		return nil, err
 	}
 	if st.gas < gas {
+		st.returnBoughtGas()
 		return nil, tx_pool.ErrIntrinsicGas
 	}
 	st.gas -= gas
 
 	// Check clause 6
 	if msg.Value().Sign() > 0 && !st.vm.CanTransfer(st.state, msg.From(), msg.Value()) {
+		st.returnBoughtGas()
 		return nil, tx_pool.ErrInsufficientFundsForTransfer
 	}
 
